@@ -194,26 +194,62 @@ def d14_4(ctx):
     a = ctx.model.cls(f"{PC}:GenericConnectedResponsePacket")
     b = ctx.model.cls(f"{PC}:GenericUnconnectedResponsePacket")
     fa, fb = a.methods["_parse_reply"], b.methods["_parse_reply"]
-    ctx.check(dump(fa.body) == dump(fb.body), ckey(PC, "parse-siblings"), fb, "both generic response classes parse identically", "the connected and unconnected generic responses derive their value differently")
+    # witness evaluation (sa/miniinterp.py): the reply object is a witness with (data type given or not) x (reply valid or
+    # refused) x (decode succeeds or raises); `super()._parse_reply()` is a no-op, `self.is_valid()` and
+    # `self.data_type.decode(..)` are answered by the witness.  Expected: raw data without a data type; decoded value when
+    # valid; None plus a recorded parse error when the decode of a valid reply fails; and for a refused reply no decode
+    # attempt and no parse error, so that the status text of the refusal is what the caller sees.
+    from ..miniinterp import Obj, Raise, run_function
+
+    outcomes = {}
     for c, fn in ((a, fa), (b, fb)):
-        ifs = [n for n in fn.body if isinstance(n, ast.If)]
-        good = False
-        if len(ifs) == 1:
-            i = ifs[0]
-            t = i.test
-            none_test = isinstance(t, ast.Compare) and attr_path(t.left) == "self.data_type" and isinstance(t.ops[0], ast.Is) and isinstance(t.comparators[0], ast.Constant) and t.comparators[0].value is None
-            raw = len(i.body) == 1 and isinstance(i.body[0], ast.Assign) and attr_path(i.body[0].targets[0]) == "self.value" and attr_path(i.body[0].value) == "self.data"
-            el = i.orelse[0] if len(i.orelse) == 1 and isinstance(i.orelse[0], ast.If) else None
-            dec = False
-            if el is not None and isinstance(el.test, ast.Call) and attr_path(el.test.func) == "self.is_valid" and not el.orelse:
-                tr = el.body[0] if len(el.body) == 1 and isinstance(el.body[0], ast.Try) else None
-                if tr is not None:
-                    d = [s for s in tr.body if isinstance(s, ast.Assign) and attr_path(s.targets[0]) == "self.value" and isinstance(s.value, ast.Call) and attr_path(s.value.func) == "self.data_type.decode" and attr_path(s.value.args[0]) == "self.data"]
-                    h = tr.handlers[0] if tr.handlers else None
-                    herr = h is not None and any(isinstance(s, ast.Assign) and attr_path(s.targets[0]) == "self._error" for s in h.body) and any(isinstance(s, ast.Assign) and attr_path(s.targets[0]) == "self.value" and isinstance(s.value, ast.Constant) and s.value.value is None for s in h.body)
-                    dec = len(d) == 1 and herr
-            good = none_test and raw and dec
-        ctx.check(good, ckey(c.key + "._parse_reply", "value"), fn, "value = data | decoded-when-valid | None with _error on decode failure", "reply value rule changed: raw data without data type, decode only when valid, failure recorded")
+        bad, und = [], None
+        for has_type in (False, True):
+            for valid in (True, False):
+                for decodes in (True, False):
+                    calls = []
+                    me = Obj(data_type=(Obj() if has_type else None), data=b"\x11\x22", value=None, _error=None)
+
+                    def hook(call, env, it, _valid=valid, _decodes=decodes, _calls=calls):
+                        p_ = attr_path(call.func) or ""
+                        if isinstance(call.func, ast.Attribute) and call.func.attr == "_parse_reply" and isinstance(call.func.value, ast.Call) and call_name(call.func.value) == "super":
+                            return None
+                        if p_ == "self.is_valid":
+                            return _valid
+                        if p_ == "self.data_type.decode":
+                            _calls.append("decode")
+                            if not _decodes:
+                                raise Raise("DataError")
+                            return "<decoded>"
+                        return UNKNOWN
+
+                    kind, res = run_function(ctx, c.module, fn, {"self": me}, call_hook=hook, deep=False)
+                    label = f"type={'T' if has_type else None},valid={valid},decode={'ok' if decodes else 'raises'}"
+                    if kind == "unknown":
+                        und = f"{label}: {res}"
+                        break
+                    if kind == "raise":
+                        bad.append(f"{label}: {res} escapes _parse_reply")
+                        continue
+                    if not has_type:
+                        ok = me.value == b"\x11\x22" and not calls
+                    elif not valid:
+                        ok = not calls and me._error is None
+                    elif decodes:
+                        ok = me.value == "<decoded>" and me._error is None
+                    else:
+                        ok = me.value is None and isinstance(me._error, str) and bool(me._error)
+                    outcomes[(c.name, label)] = (me.value, me._error, tuple(calls))
+                    if not ok:
+                        bad.append(f"{label}: value={me.value!r}, _error={me._error!r}, decode attempted={bool(calls)}")
+        key = ckey(c.key + "._parse_reply", "value")
+        if und is not None:
+            ctx.undecided(key, fn, f"_parse_reply not foldable on witness {und}")
+            continue
+        ctx.check(not bad, key, fn, "value = data | decoded-when-valid | None with _error on decode failure; refused replies are not decoded (8 witnesses)",
+                  f"reply value rule deviates: {bad[:3]} (a refused reply must keep its status text: no decode attempt, no parse error; a failed decode of a valid reply is recorded, not raised)")
+    same = all(outcomes.get((a.name, k[1])) == outcomes.get((b.name, k[1])) for k in outcomes)
+    ctx.check(same and bool(outcomes), ckey(PC, "parse-siblings"), fb, "both generic response classes derive value and error identically on every witness", "the connected and unconnected generic responses derive their value differently")
     drv = ctx.model.cls(f"{CD}:CIPDriver")
     fn = drv.methods["generic_message"]
     rets = [r for r in walk(fn) if isinstance(r, ast.Return) and isinstance(r.value, ast.Call) and call_name(r.value) == "Tag"]
